@@ -7,9 +7,12 @@ LEVEL = "model_checking"
 
 def run(ctx: Ctx) -> None:
     agg = sweep(ctx, {"C06"})
+    from mc import computed_sweep
+    comp = computed_sweep.sweep(ctx, {"C06"})
     ctx.coverage.update(
-        states=agg["words"], transitions=2 * agg["words"], traces_validated_against_impl=2 * agg["words"],
-        samples=agg["samples"], exhaustive=agg["skipped_words"] == 0,
+        computed_repetition_sweep=comp,
+        states=agg["words"] + comp["words"], transitions=2 * (agg["words"] + comp["words"]), traces_validated_against_impl=2 * (agg["words"] + comp["words"]),
+        samples=agg["samples"], exhaustive=agg["skipped_words"] == 0 and comp["skipped_words"] == 0,
         grammars=agg["grammars"], words=agg["words"], budget=ADMISSION_BUDGET,
         max_admissions_of_a_terminating_request=agg["max_adm"], budget_hits=agg["budget_hits"],
         skipped_words_after_budget_hits=agg["skipped_words"], spec_errors=agg["spec_errors"],
